@@ -178,8 +178,46 @@ class C06Bounded(Bounded):
             if q0 != q1:
                 failing_t.append([ti, di])
                 fail("after-transformation", ("KNOWN-C06T " if (ti, di) in KNOWN_T else "") + f"after {t['type']} on {doc['detection']}: to_dict() gives {d1.get('detection')} / {d1['detection'].get('condition') if isinstance(d1.get('detection'), dict) else ''}, which converts to {q1} instead of {q0}", [t["type"]])
+        # --- key collisions: several fields folded onto one name by a field mapping; the merged plain form (f|all: [...]) must keep every value
+        from .c12_bounded import equivalent
+
+        class PlainB(TextQueryTestBackend):      # no in-lists, no startswith / endswith / contains operators: every comparison is one atom field="pattern"
+            convert_or_as_in = False
+            convert_and_as_in = False
+            startswith_expression = endswith_expression = contains_expression = wildcard_match_expression = None
+        opts = [(m, v) for m in ("", "|all", "|contains") for v in ("p", ["p", "q"])]
+        coll_fail = {}
+        for n in (2, 3):
+            for combo in itertools.product(opts, repeat=n):
+                det = {}
+                for fld, (m, v) in zip("abc", combo):
+                    vv = v if isinstance(v, str) else list(v)
+                    det[fld + m] = (fld + vv) if isinstance(vv, str) else [fld + x for x in vv]
+                ev += 1
+                nontriv += 1
+                doc = {"title": "t", "logsource": {"category": "c"}, "detection": {"sel": det, "condition": "sel"}}
+                try:
+                    pl = ProcessingPipeline.from_dict({"transformations": [{"type": "field_name_mapping", "mapping": {"a": "f", "b": "f", "c": "f"}}]})
+                    r = SigmaRule.from_dict(copy.deepcopy(doc))
+                    pl.apply(r)
+                    q0 = PlainB().convert_rule(r)
+                    d1 = r.to_dict()
+                except SigmaError:
+                    continue
+                except Exception as e:
+                    fail("collision-crash", f"fields a, b, c mapped to f on {det}: {type(e).__name__}: {e}", [str(det)])
+                    continue
+                try:
+                    q1 = PlainB().convert_rule(SigmaRule.from_dict(copy.deepcopy(d1)))
+                except Exception as e:
+                    fail("collision", f"fields a, b, c mapped to f on {det}: to_dict() gives {d1.get('detection')}, which does not reload: {type(e).__name__}: {e}", [str(det)])
+                    continue
+                if len(q0) != len(q1) or not all(equivalent(str(x), str(y)) for x, y in zip(q0, q1)):
+                    shape = tuple(m + ("[]" if isinstance(v, list) else "") for m, v in combo)
+                    coll_fail[shape] = coll_fail.get(shape, 0) + 1
+                    fail("collision:" + "/".join(shape), f"fields a, b, c mapped to f on {det}: to_dict() gives {d1.get('detection')}, which converts to {q1} instead of {q0}", [str(det)])
         if os.environ.get("C06_DUMP"):
             json.dump(failing_t, open(os.environ["C06_DUMP"], "w"))
         return {"evaluations": ev, "distinct_nontrivial": nontriv, "failures": fails, "failure_counts": seen,
-                "bound": f"{len(keys)} field/modifier keys x {len(values)} values (+ type-specific values) ; 12 whole documents (rule in both date spellings, 9 correlation rules over all condition shapes incl. zero thresholds, extended conditions, aliases, generate; filter), correlation / filter documents also compared by their converted queries; {len(transformations)} transformations x {len(rule_docs)} rules",
+                "bound": f"{len(keys)} field/modifier keys x {len(values)} values (+ type-specific values) ; 12 whole documents (rule in both date spellings, 9 correlation rules over all condition shapes incl. zero thresholds, extended conditions, aliases, generate; filter), correlation / filter documents also compared by their converted queries; {len(transformations)} transformations x {len(rule_docs)} rules; 252 detections whose fields a, b, c (plain / all / contains, single / list values) are folded onto one field name",
                 "rule": "distinct documents; non-trivial = loadable", "samples": samples, "exhaustive": True}
